@@ -39,6 +39,13 @@ REPROS = [
      "setup": T3 + ["insert into t2 values (1,1,'a')"],
      "sql": "select count(*) as c1 from t2 as x1 where 1 = 2",
      "configs": ["mem.on"]},
+    {"id": "Q7", "properties": ["C02", "C01", "C17"],
+     "summary": "a subquery predicate that is not a top-level conjunct of WHERE (EXISTS under OR) is planned "
+                "wrongly: an uncorrelated EXISTS OR p returns no rows, a correlated one panics with "
+                "'column not found from input'",
+     "setup": T3 + ["insert into t1 values (1,1,'a'),(2,2,'b')", "insert into t2 values (1,1,'a')"],
+     "sql": "select x1.a from t1 as x1 where (exists (select 1 from t2 as x2)) or (x1.a = 5)",
+     "configs": ["mem.on"]},
     {"id": "Q6", "properties": ["C02", "C14", "C01"],
      "summary": "aggregates over constants / GROUP BY a constant expression under LIMIT return no rows",
      "setup": T3 + ["insert into t2 values (1,2,'a'),(NULL,NULL,'')"],
